@@ -5,6 +5,7 @@ import (
 	"io"
 	"os"
 	"path/filepath"
+	"runtime"
 	"strconv"
 	"sync"
 	"sync/atomic"
@@ -101,39 +102,29 @@ func NewNode(w *World, self *Deputy, deputyCount int) *Node {
 	return n
 }
 
-// The engine arms a 30 s timer (FetchRemoteConfirms) on every stable block; until it fires it keeps the whole node reachable,
-// above all the two 2 MB channels every store allocates. A process that creates and destroys nodes at full speed therefore
-// sits on (nodes per second) x 30 s x about 5 MB. throttle keeps that below the budget the driver hands down
-// ($VERIF_NODE_BUDGET_MB for this process), so that many shards together never exhaust the machine.
-var (
-	throttleMu sync.Mutex
-	nodeBirths []time.Time
-)
-
+// The engine arms a 30 s timer (FetchRemoteConfirms) on every stable block; until it fires it keeps the whole node reachable
+// (the two 2 MB channels every store allocates, LevelDB buffers, blocks). A process that creates and destroys nodes at full
+// speed therefore sits on (nodes per second) x 30 s x 5..35 MB. throttle delays the creation of the next node while the live
+// heap is above the budget the driver hands down ($VERIF_NODE_BUDGET_MB for this process), so that many shards together never
+// exhaust the machine. It waits at most 80 s (the timers have fired by then) and never fails a case.
 func throttle() {
-	budget := 2500
+	budget := uint64(2500)
 	if v, err := strconv.Atoi(os.Getenv("VERIF_NODE_BUDGET_MB")); err == nil && v > 0 {
-		budget = v
+		budget = uint64(v)
 	}
-	maxNodes := budget / 5
-	if maxNodes < 20 {
-		maxNodes = 20
-	}
-	for {
-		throttleMu.Lock()
-		cut := time.Now().Add(-32 * time.Second)
-		i := 0
-		for i < len(nodeBirths) && nodeBirths[i].Before(cut) {
-			i++
-		}
-		nodeBirths = nodeBirths[i:]
-		if len(nodeBirths) < maxNodes {
-			nodeBirths = append(nodeBirths, time.Now())
-			throttleMu.Unlock()
+	budget = budget << 20 * 6 / 10 // live data; the driver runs the processes with GOGC=50, so the heap stays below 1.5 x that
+	var ms runtime.MemStats
+	for i := 0; i < 400; i++ {
+		runtime.ReadMemStats(&ms)
+		if ms.HeapAlloc < budget {
 			return
 		}
-		throttleMu.Unlock()
-		time.Sleep(50 * time.Millisecond)
+		runtime.GC()
+		runtime.ReadMemStats(&ms)
+		if ms.HeapAlloc < budget {
+			return
+		}
+		time.Sleep(200 * time.Millisecond)
 	}
 }
 
